@@ -220,6 +220,11 @@ func (w *c13World) runPar2(dir string, d c13Desc, rng *rand.Rand) (tracelog.M, e
 	if d.Data == "empty" {
 		disk["b.bin"] = []byte{} // emptied, not deleted
 	}
+	if d.Data == "allgone" {
+		for _, n := range w.names {
+			disk[n] = nil
+		}
+	}
 	for _, n := range w.names {
 		if disk[n] != nil {
 			ioutil.WriteFile(filepath.Join(dir, n), disk[n], 0644)
@@ -251,9 +256,10 @@ func (w *c13World) runPar2(dir string, d c13Desc, rng *rand.Rand) (tracelog.M, e
 	index := filepath.Join(dir, w.a2.Index)
 	before, _ := sandbox.Take(dir)
 	t0 := time.Now()
-	vo := runVerify(index, 2, false, nil)
+	g := []int{1, 2, 3, 8}[(d.Pkt+len(d.File)+len(d.Kind)+len(d.Data))%4] // the goroutine count is part of the configuration
+	vo := runVerify(index, g, false, nil)
 	mid, _ := sandbox.Take(dir)
-	ro := runRepair(index, 2, d.Pkt%2 == 0, false, nil)
+	ro := runRepair(index, g, d.Pkt%2 == 0, false, nil)
 	after, _ := sandbox.Take(dir)
 	ms := time.Since(t0).Milliseconds()
 	// what changed
@@ -349,6 +355,11 @@ func (w *c13World) runPar1(dir string, d c13Desc, rng *rand.Rand) (tracelog.M, e
 	}
 	if d.Data == "empty" {
 		disk["b.bin"] = []byte{}
+	}
+	if d.Data == "allgone" {
+		for _, n := range w.names {
+			disk[n] = nil
+		}
 	}
 	nIntactData := 0
 	for _, n := range w.names {
@@ -587,6 +598,9 @@ func runC13(args []string) error {
 		}
 	})
 	for i, detail := range res.fatal {
+		if cases[i].Files == nil {
+			cases[i].Files = []string{} // never JSON null: the trace specification reads every field
+		}
 		lg.Emit(tracelog.M{"ev": "corrupt", "fmt": cases[i].Fmt, "desc": cases[i], "case": i, "fatal": true, "fatal_detail": detail,
 			"index_intact": false, "index_present": false, "intact_exps": []int{}, "intact_vols": 0, "intact_data": 0, "n": 0, "nocc": 0, "nsurv": 0,
 			"verify": tracelog.M{"err": "fatal", "errtext": detail, "usable": 0, "unusable": 0, "pusable": 0, "needed": false},
